@@ -63,6 +63,15 @@ func VerifC16Len(v *verifrt.T) {
 
 // ---------- helpers ----------
 
+// c16dirtyPool makes the next encoder draw a scratch buffer whose first bytes hold
+// arbitrary left-overs of an earlier packet (the encode buffers are pooled and never
+// cleared): what is emitted must not depend on them.
+func c16dirtyPool(v *verifrt.T) {
+	d := make([]byte, MaxMessageSize)
+	copy(d, v.Bytes(40, "stale"))
+	buffers.Put(&byteBuffer{buf: d})
+}
+
 func symBytes(v *verifrt.T, name string) []byte {
 	n := v.Choice(v.Bound("strlen")+1, name+"_len")
 	return v.Bytes(n, name)
@@ -105,6 +114,7 @@ func obsBytes(v *verifrt.T, label string, b []byte) {
 // ---------- CONNECT ----------
 
 func VerifC16Connect(v *verifrt.T) {
+	c16dirtyPool(v)
 	c := &Connect{
 		ProtoName:      symBytes(v, "proto"),
 		Version:        v.U8("ver"),
@@ -182,6 +192,7 @@ func VerifC16Connect(v *verifrt.T) {
 // ---------- PUBLISH ----------
 
 func VerifC16Publish(v *verifrt.T) {
+	c16dirtyPool(v)
 	m := &Publish{
 		Header:    Header{DUP: v.Bool("dup"), Retain: v.Bool("retain"), QOS: v.U8("qos")},
 		Topic:     symBytes(v, "topic"),
@@ -216,6 +227,7 @@ func VerifC16Publish(v *verifrt.T) {
 // ---------- packets that carry only a message id ----------
 
 func VerifC16Acks(v *verifrt.T) {
+	c16dirtyPool(v)
 	mid := v.U16("mid")
 	k := v.Choice(5, "kind")
 	var m Message
@@ -276,6 +288,7 @@ func VerifC16Acks(v *verifrt.T) {
 // ---------- PUBREL with arbitrary header (round trip only) ----------
 
 func VerifC16Pubrel(v *verifrt.T) {
+	c16dirtyPool(v)
 	m := &Pubrel{MessageID: v.U16("mid"), Header: Header{DUP: v.Bool("dup"), Retain: v.Bool("retain"), QOS: v.U8("qos")}}
 	v.Assume(m.Header.QOS <= 2)
 	e := encB(v, m, "C16.pubrel")
@@ -288,6 +301,7 @@ func VerifC16Pubrel(v *verifrt.T) {
 // ---------- CONNACK / empty packets ----------
 
 func VerifC16Small(v *verifrt.T) {
+	c16dirtyPool(v)
 	k := v.Choice(4, "kind")
 	switch k {
 	case 0:
@@ -326,6 +340,7 @@ func VerifC16Small(v *verifrt.T) {
 // ---------- SUBSCRIBE / UNSUBSCRIBE / SUBACK ----------
 
 func VerifC16Subscribe(v *verifrt.T) {
+	c16dirtyPool(v)
 	n := v.Choice(v.Bound("tuples")+1, "n")
 	m := &Subscribe{Header: Header{QOS: 1}, MessageID: v.U16("mid")}
 	p := packets.NewControlPacket(packets.Subscribe).(*packets.SubscribePacket)
@@ -352,6 +367,7 @@ func VerifC16Subscribe(v *verifrt.T) {
 }
 
 func VerifC16Unsubscribe(v *verifrt.T) {
+	c16dirtyPool(v)
 	n := v.Choice(v.Bound("tuples")+1, "n")
 	m := &Unsubscribe{Header: Header{QOS: 1}, MessageID: v.U16("mid")}
 	p := packets.NewControlPacket(packets.Unsubscribe).(*packets.UnsubscribePacket)
@@ -375,6 +391,7 @@ func VerifC16Unsubscribe(v *verifrt.T) {
 }
 
 func VerifC16Suback(v *verifrt.T) {
+	c16dirtyPool(v)
 	n := v.Choice(v.Bound("tuples")+2, "n")
 	m := &Suback{MessageID: v.U16("mid")}
 	for i := 0; i < n; i++ {
@@ -403,6 +420,7 @@ var c16Lens = []int{0, 1, 125, 126, 127, 128, 129, 16380, 16381, 16382, 16383, 1
 // ErrMessageTooLarge or writes a packet whose declared length is exact and
 // which decodes to the same topic / payload length.
 func VerifC16Size(v *verifrt.T) {
+	c16dirtyPool(v)
 	n := c16Lens[v.Choice(len(c16Lens), "plen_idx")]
 	m := &Publish{
 		Header:    Header{DUP: v.Bool("dup"), Retain: v.Bool("retain"), QOS: v.U8("qos")},
